@@ -154,13 +154,21 @@ def run(ctx: Ctx) -> None:
             for kinds in kinds_list:
                 jobs.append({"tdesc": c["desc"], "inputs": c["inputs"], "storage": s,
                              "kinds": dict(kinds, __via__=("decl", "map", "override")[(k // 3) % 3])})
-    traces = run_jobs(jobs)
-    for t in traces:
-        ctx.case({"d": t["desc"], "i": t["inputs"], "s": t["storage"], "k": t["kinds"]}, nontrivial(t))
-    mid = traces[len(traces) // 2]
-    ctx.sample({"mapspecs": [pmap.ms_string(f["ms"]) for f in mid["desc"]["funcs"]], "storage": mid["storage"],
-                "events": [{k: v for k, v in e.items() if v not in ("", [], True)} for e in mid["ev"][:4]]})
-    validate(ctx, traces, "universe")
+    # batches bound the memory of the thorough tier (every trace record carries its events)
+    traces: list[dict] = []
+    batch = 20000
+    for b0 in range(0, len(jobs), batch):
+        part = run_jobs(jobs[b0:b0 + batch])
+        for t in part:
+            ctx.case({"d": t["desc"], "i": t["inputs"], "s": t["storage"], "k": t["kinds"]}, nontrivial(t))
+        if b0 == 0:
+            mid = part[len(part) // 2]
+            ctx.sample({"mapspecs": [pmap.ms_string(f["ms"]) for f in mid["desc"]["funcs"]], "storage": mid["storage"],
+                        "events": [{k: v for k, v in e.items() if v not in ("", [], True)} for e in mid["ev"][:4]]})
+        validate(ctx, part, f"universe{b0 // batch}")
+        if not traces:
+            traces = part[:2000]          # kept for the binding self-test below
+        del part
     ctx.exhaustive = False
 
     # random pipelines
